@@ -345,6 +345,18 @@ fn check_structure(unit: &Value, o: &Opts, only_format: Option<&str>, ctx: &mut 
                     ctx.violation(viol("no-hidden-item-mentioned", unit, case.clone(), format, format!("{} must not be mentioned in section `{}`", f, key), sec));
                 }
             }
+            // the help / version switches documented for a level are that level's own
+            if level.cfg.help_names.is_none() && level.cfg.version_names.is_none() {
+                let has = |n: &str| words.iter().any(|w| w == n);
+                if !has("--help") {
+                    ok = false;
+                    ctx.violation(viol("help-and-version-switches-are-the-levels-own", unit, case.clone(), format, format!("--help mentioned in section `{}`", key), sec));
+                }
+                if has("--version") != level.cfg.version.is_some() {
+                    ok = false;
+                    ctx.violation(viol("help-and-version-switches-are-the-levels-own", unit, case.clone(), format, format!("--version mentioned in section `{}` iff that level configures a version ({})", key, level.cfg.version.is_some()), sec));
+                }
+            }
         }
         if secs.len() != lv.len() {
             ok = false;
@@ -434,7 +446,7 @@ impl Check for C16 {
         }
     }
     fn rule(&self) -> String {
-        "(1) structure: the C12 definition family (ordered tuples of <=2, thorough 3, of 15 documented field kinds x 6 tails incl. nested and hidden commands): render_markdown / render_html / render_manpage return, contain exactly one section per reachable command level, each section mentions every visible flag/argument/command name of that level and no hidden or alias name; (2) text: 8 text slots (item help, descr, header+footer, group title, positional help, command help + inner descr, metavariable, application name) with EVERY concatenation of <=3 (thorough 4) fragments from 22 roff/HTML/markdown metacharacter fragments (code-line start, fence start, .x 'x \\fB \\ - <zz> </dd> & > newline+. newline+' newline+space blank-line [x](y) ` * _ # é word): HTML scanned by an independent tag lexer (only the renderer's own tags, perfectly nested, no raw < or > from user text), manpage scanned by an independent roff lexer (every line starting with . or ' is one of .TH .SH .SS .TP .PP .nf .fi .ie .el; only the escapes \\fB \\fI \\fR \\fP \\- \\\\ \\& \\*(Aq '\\ '; decoding gives the help lines back); evaluation = one rendered document".into()
+        "(1) structure: the C12 definition family (ordered tuples of <=2, thorough 3, of 15 documented field kinds x 6 tails incl. nested and hidden commands): render_markdown / render_html / render_manpage return, contain exactly one section per reachable command level, each section mentions every visible flag/argument/command name of that level and no hidden or alias name, --help, and --version exactly when that level (not the root, not a sibling) configures a version; (2) text: 8 text slots (item help, descr, header+footer, group title, positional help, command help + inner descr, metavariable, application name) with EVERY concatenation of <=3 (thorough 4) fragments from 22 roff/HTML/markdown metacharacter fragments (code-line start, fence start, .x 'x \\fB \\ - <zz> </dd> & > newline+. newline+' newline+space blank-line [x](y) ` * _ # é word): HTML scanned by an independent tag lexer (only the renderer's own tags, perfectly nested, no raw < or > from user text), manpage scanned by an independent roff lexer (every line starting with . or ' is one of .TH .SH .SS .TP .PP .nf .fi .ie .el; only the escapes \\fB \\fI \\fR \\fP \\- \\\\ \\& \\*(Aq '\\ '; decoding gives the help lines back); evaluation = one rendered document".into()
     }
     fn bounds(&self, tier: Tier) -> Value {
         json!({"fragments_per_string": tier.pick(3, 4), "slots": 8, "structure_fields": tier.pick(2, 3)})
